@@ -18,6 +18,7 @@
 #include <asmjit/a64.h>
 #include <sys/mman.h>
 #include <sys/wait.h>
+#include <sys/time.h>
 #include <memory>
 #include <functional>
 #include <climits>
@@ -60,7 +61,7 @@ static const char* call_kind_name(char k) {
   switch (k) {
     case 'I': return "inst"; case 'B': return "bind"; case 'A': return "align"; case 'E': return "embed";
     case 'D': return "embed_data_array"; case 'L': return "embed_label"; case 'X': return "embed_label_delta";
-    case 'S': return "section"; case 'N': return "new_named_label"; case 'n': return "new_label";
+    case 'S': return "section"; case 'N': return "new_named_label"; case 'n': return "new_label"; case 'F': return "finalize";
   }
   return "?";
 }
@@ -339,6 +340,7 @@ static std::string req_spec(ArchK arch, const Call& c) {
   };
   for (int i = 0; i < c.nops; i++) one(c.ops[i]);
   if (c.has_extra) one(c.extra);
+  if (c.opt) s += "o:" + hx(c.opt) + ";";
   return s;
 }
 
@@ -423,7 +425,7 @@ static void take_snap(Env& e, Snap& s) {
     s.add("current-section", a->current_section() ? a->current_section()->section_id() : ~0u);
   }
   if (BaseBuilder* b = e.builder()) {
-    uint64_t n = 0; for (BaseNode* node = b->first_node(); node; node = node->next()) n++;
+    uint64_t n = 0; for (BaseNode* node = b->first_node(); node && n < 1000000; node = node->next()) n++;    // 1000000 = the list is cyclic
     s.add("node-count", n); s.add("cursor", uint64_t(uintptr_t(b->cursor()))); s.add("last-node", uint64_t(uintptr_t(b->last_node())));
   }
 }
@@ -521,8 +523,8 @@ static std::set<std::string> g_dead;     // culprits / tags that crashed repeate
 static std::string culprit_or_tag(const Call& c) { return !c.must.empty() ? c.must : (c.tag.empty() ? std::string("-") : c.tag); }
 // what is skipped after repeated crashes: x86 calls naming the same unrepresentable component; otherwise the very same call
 static std::string dead_key(ArchK arch, const Call& c) {
-  if (!c.must.empty()) return arch == AA64 ? c.must + "|" + c.tag : c.must;
-  std::string k = c.tag + "|" + num(c.id) + "|" + num(c.opt);
+  if (!c.must.empty()) return std::string(kArchName[arch]) + "|" + (arch == AA64 ? c.must + "|" + c.tag : c.must);
+  std::string k = std::string(kArchName[arch]) + "|" + c.tag + "|" + num(c.id) + "|" + num(c.opt);
   for (int i = 0; i < c.nops; i++) k += "|" + ser_op(c.ops[i]);
   return k + "|" + num(c.a0) + "|" + num(c.a1) + "|" + num(c.a2);
 }
@@ -653,7 +655,10 @@ static bool run_history(const Cfg& cfg, const std::vector<Call>& calls, const st
   // leave whatever section the history switched to: the probe goes to .text in every run
   Error perr = e.em->section(e.code.text_section());
   if (perr == Error::kOk) perr = probe(e);
-  Error berr = e.em->bind(e.L1);
+  // bind the label the history left unbound (binding twice is a case of its own: X = bind(label#0))
+  bool l1_bound = false;
+  for (size_t i = 0; i < calls.size(); i++) if (accepted[i] && calls[i].kind == 'B' && calls[i].a0 == 1) l1_bound = true;
+  Error berr = l1_bound ? Error::kOk : e.em->bind(e.L1);
   Error ferr = e.em->finalize();
   fin.fin_err = int(ferr) * 1000000 + int(perr) * 1000 + int(berr);
   take_final(e, fin);
@@ -682,6 +687,12 @@ static bool twin_final(const Cfg& cfg, const std::vector<Call>& calls, const std
 
 struct UnitVerdict { bool bad = false; std::string key, desc, replay; };
 
+static std::string first_diff(const Final& a, const Final& b) {
+  size_t p = 0; while (p < a.image.size() && p < b.image.size() && a.image[p] == b.image[p]) p++;
+  size_t ls = a.image.rfind('\n', p); ls = ls == std::string::npos ? 0 : ls + 1;
+  return " (finalize/probe/bind codes " + num(a.fin_err) + " vs " + num(b.fin_err) + "; first difference: '" + a.image.substr(ls, 110) + "' vs '" + (ls < b.image.size() ? b.image.substr(ls, 110) : std::string()) + "')";
+}
+
 // returns false on harness problems
 static bool judge_calls(const Cfg& cfg, const std::vector<Call>& calls, const std::set<int>& skip, UnitVerdict& uv, UR& ur, bool localizing) {
   std::vector<char> run(calls.size(), 1), accepted, acc2;
@@ -692,7 +703,7 @@ static bool judge_calls(const Cfg& cfg, const std::vector<Call>& calls, const st
   if (!run_history(cfg, calls, run, true, accepted, errs, f1, vd, ur, localizing ? 5 : 1)) return false;
   ur.cnt["traces"]++;
   auto report = [&](const Call* c, const std::string& clause, const std::string& last, const std::string& why, const std::vector<Call>& rp) {
-    Call none; none.kind = calls.empty() ? 'I' : calls[0].kind;
+    Call none; none.kind = 'F';
     const Call& cc = c ? *c : none;
     uv.bad = true;
     uv.key = vkey(cfg, cc, clause, last);
@@ -729,22 +740,31 @@ static bool judge_calls(const Cfg& cfg, const std::vector<Call>& calls, const st
     // first failed call names the key
     const Call* c = nullptr; int en = 0;
     for (size_t i = 0; i < calls.size(); i++) if (run[i] && !accepted[i]) { c = &calls[i]; en = errs[i]; break; }
-    std::string why = "after the history the emitter does not produce what a fresh emitter given only the accepted calls produces";
-    size_t p = 0; while (p < f1.image.size() && p < f2.image.size() && f1.image[p] == f2.image[p]) p++;
-    size_t ls = f1.image.rfind('\n', p); ls = ls == std::string::npos ? 0 : ls + 1;
-    why += " (finalize/probe/bind codes " + num(f1.fin_err) + " vs " + num(f2.fin_err) + "; first difference: '" + f1.image.substr(ls, 90) + "' vs '" + f2.image.substr(ls < f2.image.size() ? ls : 0, 90) + "')";
+    std::string why = "after the history the emitter does not produce what a fresh emitter given only the accepted calls produces" + first_diff(f1, f2);
     report(c, clause, c ? errname(Error(en)) : std::string("no-failed-call"), why, calls);
     return true;
   }
   // Builder / Compiler: what was accepted and finalized without error must be real code
   if (cfg.ek != EASM && f1.fin_err == 0) {
+    int first_must = -1;
     for (size_t i = 0; i < calls.size(); i++) {
-      if (accepted[i] && !calls[i].must.empty()) {
-        report(&calls[i], "accepted-garbage", calls[i].must, "accepted and finalized without any error although " + calls[i].must + " cannot be encoded", calls);
-        return true;
+      if (!accepted[i] || calls[i].must.empty()) continue;
+      if (first_must < 0) first_must = int(i);
+      if (calls.size() > 1 && !localizing) {
+        // several calls: blame the one that shows it alone (another accepted call may have destroyed the node list)
+        UnitVerdict uv1; std::vector<Call> one{calls[i]};
+        g_mark_override = int(i); bool jr = judge_calls(cfg, one, {}, uv1, ur, true); g_mark_override = -1;
+        if (jr && uv1.bad) { uv = uv1; return true; }
       }
     }
+    if (first_must >= 0) {
+      const Call& c = calls[first_must];
+      report(&c, "accepted-garbage", c.must, "accepted and finalized without any error although this is invalid: " + c.must, calls);
+      return true;
+    }
     bool any = false; for (char a : accepted) any |= a != 0;
+    // (a Builder serializes section by section: with a second section in use the label/relocation state at each node legitimately differs)
+    for (size_t i = 0; i < calls.size(); i++) if (accepted[i] && calls[i].kind == 'S' && calls[i].a0 != 2) any = false;
     if (any) {
       Cfg ac = cfg; ac.ek = EASM;
       Final f3; std::vector<char> acc3; Verdict dummy; std::vector<int> e3;
@@ -762,7 +782,7 @@ static bool judge_calls(const Cfg& cfg, const std::vector<Call>& calls, const st
         if (!(virt && cfg.ek == ECOMPILER)) {
           const Call* c = rej >= 0 ? &calls[rej] : &calls[0];
           std::string why = rej >= 0 ? "accepted, and finalize() returned kOk, but the Assembler rejects this very call with " + errname(Error(e3[rej])) + " (the code that finalize produced silently differs from the calls that were accepted)"
-                                     : "finalize() returned kOk but the code differs from what the Assembler emits for the same accepted calls";
+                                     : "finalize() returned kOk but the code differs from what the Assembler emits for the same accepted calls" + first_diff(f1, f3);
           report(c, "accepted-garbage", rej >= 0 ? "assembler-rejects:" + errname(Error(e3[rej])) : std::string("differs-from-assembler"), why, calls);
           return true;
         }
@@ -887,8 +907,8 @@ static void gen_x86(Gen& g, bool thorough) {
         if (hk == HREC) {
           for (size_t i = 1; i < NW; i++) u.calls.push_back(x86_inst(arch, EASM, id, {&W[i].op, &W[i].op}));
           for (size_t i = 1; i < NW; i++) u.calls.push_back(x86_inst(arch, EASM, id, {&o_eax, &W[i].op}));
-          for (size_t i = 1; i < NW; i++) u.calls.push_back(x86_inst(arch, EASM, id, {&W[i].op, &o_eax}));
-          for (size_t i = 1; i < NW; i++) u.calls.push_back(x86_inst(arch, EASM, id, {&o_xmm0, &W[i].op}));
+          if (thorough) for (size_t i = 1; i < NW; i++) u.calls.push_back(x86_inst(arch, EASM, id, {&W[i].op, &o_eax}));
+          if (thorough) for (size_t i = 1; i < NW; i++) u.calls.push_back(x86_inst(arch, EASM, id, {&o_xmm0, &W[i].op}));
           for (size_t i = 1; i < NW; i++) u.calls.push_back(x86_inst(arch, EASM, id, {&o_xmm0, &o_xmm1, &W[i].op}));
           for (size_t i = 1; i < NW; i++) u.calls.push_back(x86_inst(arch, EASM, id, {&W[i].op, &W[i].op, &W[i].op}));
         }
@@ -898,7 +918,7 @@ static void gen_x86(Gen& g, bool thorough) {
     // (1b) Builder / Compiler: single-call units (errors may surface in finalize), every id x every 1-operand tuple
     for (EmK ek : {EBUILDER, ECOMPILER}) {
       for (uint32_t id : all) {
-        if (!thorough && id >= 3 && id < uint32_t(x86::Inst::_kIdCount) && std::find(reps.begin(), reps.end(), id) == reps.end() && (id % 8) != 0) continue;
+        if (!thorough && id >= 3 && id < uint32_t(x86::Inst::_kIdCount) && std::find(reps.begin(), reps.end(), id) == reps.end()) continue;
         for (size_t i = 0; i < NW; i++) {
           row++;
           if (!g.want()) continue;
@@ -913,15 +933,17 @@ static void gen_x86(Gen& g, bool thorough) {
           if (!g.want()) continue;
           Unit u; u.cfg.arch = arch; u.cfg.ek = ek; u.cfg.hk = HdK(row % 3); u.group = "x86:builder-2op";
           u.calls.push_back(x86_inst(arch, ek, id, {&o_eax, &W[i].op}));
-          u.calls.push_back(x86_inst(arch, ek, id, {&W[i].op, &o_eax}));
+          if (thorough) u.calls.push_back(x86_inst(arch, ek, id, {&W[i].op, &o_eax}));
           u.calls.push_back(x86_inst(arch, ek, id, {&W[i].op, &W[i].op}));
           // three single-call units
           for (auto& c : std::vector<Call>(u.calls)) { Unit v; v.cfg = u.cfg; v.group = u.group; v.calls.push_back(c); g.sink(v); }
         }
       }
     }
-    // (2) W x W for the representatives of every encoding class (thorough: 3 per class)
-    for (uint32_t id : reps) {
+    // (2) W x W for the representatives of every encoding class (thorough: every instruction id)
+    std::vector<uint32_t> wxw = reps;
+    if (thorough) { wxw.clear(); for (uint32_t id = 1; id < uint32_t(x86::Inst::_kIdCount); id++) wxw.push_back(id); }
+    for (uint32_t id : wxw) {
       for (size_t i = 0; i < NW; i++) {
         row++;
         if (!g.want()) continue;
@@ -964,9 +986,9 @@ static void gen_x86(Gen& g, bool thorough) {
         row++;
         if (!g.want()) continue;
         Unit u; u.cfg.arch = arch; u.cfg.ek = ek; u.cfg.hk = HdK(row % 3); u.cfg.logger = ek == EASM && (row % 4) == 0; u.group = "x86:options";
-        size_t nt = ek == EASM ? T.size() : 4;
+        size_t nt = ek == EASM ? T.size() : (thorough ? 4 : 1);
         for (size_t t = 0; t < nt; t++) {
-          const auto& tt = ek == EASM ? T[t] : T[(t * 3 + 1) % T.size()];
+          const auto& tt = ek == EASM ? T[t] : T[(t * 3 + 1 + (thorough ? 0 : row)) % T.size()];
           for (uint32_t b = 0; b < 32; b++) u.calls.push_back(mk(ek, id, tt, 1u << b, nullptr, (b & 3) == 0));
           u.calls.push_back(mk(ek, id, tt, 0xFFFFFFFFu, &o_k1, true));
           u.calls.push_back(mk(ek, id, tt, uint32_t(InstOptions::kX86_Rep), &o_ecx, false));
@@ -1346,6 +1368,7 @@ static void gen_misc(Gen& g, bool thorough) {
       for (size_t x = 0; x < X.size(); x++) {
         if (g.want()) { Unit u; u.cfg.arch = arch; u.cfg.ek = ek; u.cfg.hk = hk; u.group = "misc:alone"; u.calls.push_back(X[x]); g.sink(u); }
         for (size_t y = 0; y < X.size(); y++) {
+          if (ek != EASM) break;        // Builder/Compiler: one weird call per history (errors may surface in finalize: exact attribution)
           if (!thorough && ((x * 7 + y) % 6) != 0) continue;
           if (!g.want()) continue;
           Unit u; u.cfg.arch = arch; u.cfg.ek = ek; u.cfg.hk = hk; u.group = "misc:pairs"; u.calls.push_back(X[x]); u.calls.push_back(X[y]); u.calls.push_back(V[0]); g.sink(u);
@@ -1418,7 +1441,7 @@ static void child_run(const std::vector<Unit>& batch, size_t from, const std::ma
   for (size_t k = from; k < batch.size(); k++) {
     const Unit& u = batch[k];
     g_sh->unit = long(k); g_sh->call = -1; g_sh->phase = 0;
-    alarm(unsigned(20 + u.calls.size() / 50));     // watchdog: a unit is milliseconds of work; SIGALRM kills a hang and the parent attributes it
+    { struct itimerval tv; memset(&tv, 0, sizeof tv); tv.it_value.tv_sec = long(u.calls.size() / 400); tv.it_value.tv_usec = 700000; setitimer(ITIMER_VIRTUAL, &tv, nullptr); }   // watchdog in CPU time: a unit is milliseconds of work; SIGVTALRM ends a hang, the parent attributes it
     ur.clear();
     static const std::set<int> none;
     auto it = skips.find(long(k));
@@ -1475,18 +1498,19 @@ static void run_batch(const std::vector<Unit>& batch) {
     if (ku < long(from) || ku >= long(batch.size())) ku = last_done + 1;
     if (ku >= long(batch.size())) break;
     const Unit& u = batch[ku];
-    bool hang = WIFSIGNALED(st) && WTERMSIG(st) == SIGALRM;
+    bool hang = WIFSIGNALED(st) && WTERMSIG(st) == SIGVTALRM;
     std::string how = hang ? std::string("did not return within the watchdog time (endless loop)") : WIFSIGNALED(st) ? "signal " + num(WTERMSIG(st)) : "exit code " + num(WEXITSTATUS(st));
     {
       // what the sanitizer said (description only; keys stay stable)
       size_t p1 = errtxt.find("runtime error: "), p2 = errtxt.find("ERROR: AddressSanitizer: ");
       size_t pp = p1 != std::string::npos ? p1 : p2;
       if (pp != std::string::npos) how += ": " + errtxt.substr(pp, errtxt.find('\n', pp) - pp).substr(0, 160);
+      else if (errtxt.find("terminate called") != std::string::npos) how += ": std::terminate - the exception thrown by the error handler met a noexcept function";
       size_t fr = errtxt.find("/repo/asmjit/", pp == std::string::npos ? 0 : pp);
       { if (fr != std::string::npos) { size_t ls = errtxt.rfind(" in ", fr); size_t le = errtxt.find('\n', fr); if (ls != std::string::npos && ls < fr) how += " at" + errtxt.substr(ls + 3, le - ls - 3).substr(0, 200); } }
       if (c.n("crashes") < 6) fputs(errtxt.substr(0, 3000).c_str(), stderr);
     }
-    static const char* phn[] = {"setup", "call", "probe/finalize", "twin run", "assembler cross run", "call"};
+    static const char* phn[] = {"setup", "call", "probe/finalize", "twin run", "assembler cross run", "single-call rerun"};
     if ((ph == 1 || ph == 5) && kc >= 0 && size_t(kc) < u.calls.size()) {
       const Call& cc = u.calls[kc];
       std::string cot = culprit_or_tag(cc);
@@ -1494,13 +1518,18 @@ static void run_batch(const std::vector<Unit>& batch) {
       c.violation(key, "process died (" + how + ") inside the call :: " + u.cfg.str() + " :: " + desc_call(u.cfg.arch, cc), ser_unit(u.cfg, {cc}));
       skips[ku].insert(kc);
       std::string dk = dead_key(u.cfg.arch, cc);
-      if (++g_par.crash_count[dk] >= 3) g_dead.insert(dk);
+      if (++g_par.crash_count[dk] >= 2) g_dead.insert(dk);
     } else {
       Call none; none.kind = u.calls.empty() ? 'I' : u.calls[0].kind;
-      std::string cot = u.calls.empty() ? std::string("-") : culprit_or_tag(u.calls[0]);
-      c.violation(vkey(u.cfg, none, "ub-crash", std::string(hang ? "hang:" : "") + phn[ph < 0 || ph > 5 ? 0 : ph] + ":" + cot), "process died (" + how + ") during " + phn[ph < 0 || ph > 5 ? 0 : ph] + " :: " + u.cfg.str() + " :: " + (u.calls.empty() ? "" : desc_call(u.cfg.arch, u.calls[0])), ser_unit(u.cfg, u.calls));
+      std::string cot = "-";
+      if (!u.calls.empty()) { cot = culprit_or_tag(u.calls[0]); none = u.calls[0]; for (auto& cc : u.calls) if (!cc.must.empty()) { cot = cc.must; none = cc; break; } }
+      c.violation(vkey(u.cfg, none, "ub-crash", std::string(hang ? "hang:" : "") + cot), "process died (" + how + ") during " + phn[ph < 0 || ph > 5 ? 0 : ph] + " of a history containing :: " + u.cfg.str() + " :: " + (u.calls.empty() ? "" : desc_call(u.cfg.arch, none)), ser_unit(u.cfg, u.calls));
       skips[ku].insert(-1);
-      if (!u.calls.empty()) { std::string dk = dead_key(u.cfg.arch, u.calls[0]); if (++g_par.crash_count[dk] >= 3) g_dead.insert(dk); }
+      if (!u.calls.empty()) {
+        const Call* cul = &u.calls[0];
+        for (auto& cc : u.calls) if (!cc.must.empty()) { cul = &cc; break; }
+        std::string dk = dead_key(u.cfg.arch, *cul); if (++g_par.crash_count[dk] >= 2) g_dead.insert(dk);
+      }
     }
     c.n("crashes")++;
     from = size_t(ku);
@@ -1535,7 +1564,7 @@ int main(int argc, char** argv) {
     if (stop) return;
     batch_calls += u.calls.size();
     batch.push_back(std::move(u));
-    if (batch.size() >= 400 || batch_calls >= 40000) {
+    if (batch.size() >= 1500 || batch_calls >= 150000) {
       run_batch(batch); batch.clear(); batch_calls = 0;
       if (c.out_of_time()) stop = true;
     }
@@ -1546,11 +1575,11 @@ int main(int argc, char** argv) {
   if (!stop) run_batch(batch);
   if (g_par.acc_file) fclose(g_par.acc_file);
 
-  c.n("units_enumerated") = g.idx;
+  if (c.shard_i == 0) c.n("units_enumerated") = g.idx;
   c.n("distinct_nontrivial") = c.n("failed_calls_checked") + c.n("accepted_distinct");
   c.n("states") = c.n("units");
   c.n("transitions") = c.n("evaluations");
-  c.strs["bound"] = thorough ? "x86: W x W for 3 ids per encoding class, W x W x {w,imm} for 1 id per class, all ids x 3 handlers; a64: <=2 perturbed fields; misc: all pairs"
+  c.strs["bound"] = thorough ? "x86: W x W for every instruction id, W x W x {w,imm} for 1 id per encoding class, options/extra-reg/3..6 operands for 3 ids per class, all ids x 3 handlers; a64: <=2 perturbed fields; misc: all pairs"
                              : "x86: W x W for 1 id per encoding class; a64: <=1 perturbed field; misc: 3-step histories + 1/6 of the pairs";
   c.strs["rule"] = "units = short call histories on a fresh real emitter, arch{x86-32,x64,a64} x {Assembler,Builder,Compiler} x handler{none,recording,throwing}. "
                    "x86 (strict validation): every inst id (0..count+1,0xFFFF,0xFFFFFFFF,0x80000001) x every 1-operand tuple over the weird-operand alphabet W (registers of every type x boundary ids incl. virtual, "
@@ -1561,7 +1590,7 @@ int main(int argc, char** argv) {
                    "Oracle per failing call: handler exactly once with the returned code and the emitter as origin, sections/labels/fixups/relocations/nodes unchanged, one-shot state cleared; per unit: identical final image "
                    "(probe program appended) as a fresh emitter given only the accepted calls; unrepresentable components must not be accepted; Builder/Compiler output == Assembler output; ASan/UBSan silent.";
   c.assumptions.push_back("finite value alphabets: ids/offsets/immediates outside the listed boundary values are not explored; x86 W x W only for one (thorough: three) instruction(s) per encoding class");
-  c.assumptions.push_back("after 3 crashes caused by the same operand (culprit) in a shard, further calls naming that culprit are skipped (counter skipped_after_repeated_crash)");
+  c.assumptions.push_back("after 2 crashes caused by the same operand (culprit) in a shard, further calls naming that culprit are skipped (counter skipped_after_repeated_crash)");
   if (g_par.selfcheck_failed) { vh::finish(); fprintf(stderr, "c14: harness self-check failed (see notes)\n"); return 2; }
   return vh::finish();
 }
